@@ -206,6 +206,9 @@ func segmentsAs(gs []string) bool {
 	s := strings.Join(gs, "")
 	st := -1
 	for _, want := range gs {
+		if want == "" { // a blank cell contributes no bytes: its neighbours must not merge
+			continue
+		}
 		var c string
 		c, s, _, st = uniseg.FirstGraphemeClusterInString(s, st)
 		if c != want {
@@ -241,14 +244,15 @@ func wfStyle(s vaxis.Style) bool {
 
 func (h *harness) addCodec(cells []vaxis.Cell, tags ...string) {
 	gs := make([]string, len(cells))
-	links := false
+	links, blanks := false, false
 	wf := true
 	for i, c := range cells {
 		gs[i] = c.Grapheme
 		if c.Hyperlink != "" {
 			links = true
 		}
-		wf = wf && wfStyle(c.Style) && c.Grapheme != ""
+		wf = wf && wfStyle(c.Style)
+		blanks = blanks || c.Grapheme == ""
 	}
 	if !segmentsAs(gs) {
 		return
@@ -290,6 +294,9 @@ func (h *harness) addCodec(cells []vaxis.Cell, tags ...string) {
 	if links {
 		tags = append(tags, "hyperlink")
 	}
+	if blanks {
+		tags = append(tags, "blank-cells")
+	}
 	if h.legacy {
 		tags = append(tags, "legacy-sgr")
 	}
@@ -324,10 +331,20 @@ func (h *harness) addRender(rgb, smulx bool, cells []vaxis.Cell, tags ...string)
 	vx, fc := h.vaxisFor(rgb, smulx)
 	win := vx.Window()
 	wf := true
+	blanks := false
 	for i := range cells {
 		cells[i].Width = 1
+		if cells[i].Grapheme == "" {
+			// a blank screen cell is the zero-value Character: render measures it (width 0)
+			// and draws a space
+			cells[i].Width = 0
+			blanks = true
+		}
 		win.SetCell(i, 0, cells[i])
 		wf = wf && wfStyle(cells[i].Style)
+	}
+	if blanks {
+		tags = append(tags, "blank-cells")
 	}
 	vx.Refresh()
 	frame := string(fc.Take())
@@ -557,6 +574,7 @@ func main() {
 			cells := make([]vaxis.Cell, n)
 			prev := vaxis.Style{}
 			withLinks := g.n(8) == 0
+			withBlanks := i%3 == 2
 			for j := range cells {
 				var st vaxis.Style
 				switch g.n(4) {
@@ -577,6 +595,9 @@ func main() {
 					st = vaxis.Style{}
 				}
 				cells[j] = cellOf(g.grapheme(false), st)
+				if withBlanks && g.n(3) == 0 {
+					cells[j].Grapheme = "" // blank cell, with whatever style was drawn for it
+				}
 				prev = st
 				prev.Hyperlink, prev.HyperlinkParams = "", ""
 			}
@@ -591,6 +612,9 @@ func main() {
 					st = g.style()
 				}
 				cells[j] = cellOf(g.grapheme(true), st)
+				if i%3 == 2 && g.n(3) == 0 {
+					cells[j].Grapheme = ""
+				}
 				prev = st
 			}
 			c := allCaps[i%4]
@@ -598,6 +622,93 @@ func main() {
 		}
 	}
 	phaseC(nC)
+
+	// --- G. blank cells (Grapheme == "": untouched screen cells, continuation cells of wide
+	// characters) x style transitions: a blank styled differently from the cell before it, from
+	// the cell after it, from both, several blanks in a row, a styled blank first / last / alone.
+	// The styles run through every single attribute bit, bold/dim combinations (shared reset 22),
+	// every colour class in every colour slot, every underline style, and full random styles.
+	gRow := 0
+	phaseG := func(full bool) {
+		var S []vaxis.Style
+		for b := uint(0); b < 7; b++ {
+			S = append(S, vaxis.Style{Attribute: vaxis.AttributeMask(2 << b)})
+		}
+		S = append(S, vaxis.Style{Attribute: vaxis.AttrBold | vaxis.AttrDim}, vaxis.Style{Attribute: vaxis.AttrDim | vaxis.AttrItalic})
+		for class := 1; class <= 4; class++ {
+			S = append(S, vaxis.Style{Foreground: g.colour(class)}, vaxis.Style{Background: g.colour(class)},
+				vaxis.Style{UnderlineColor: g.colour(class), UnderlineStyle: vaxis.UnderlineSingle})
+		}
+		for u := 1; u <= 5; u++ {
+			S = append(S, vaxis.Style{UnderlineStyle: vaxis.UnderlineStyle(u)})
+		}
+		S = append(S, vaxis.Style{Attribute: vaxis.AttrBold, Foreground: vaxis.IndexColor(1)}, g.style(), g.style())
+		if !full {
+			S = S[len(S)-14:]
+		}
+		var pairs [][2]vaxis.Style
+		for i, s := range S {
+			pairs = append(pairs, [2]vaxis.Style{s, {}}, [2]vaxis.Style{s, S[(i+1)%len(S)]})
+			if full {
+				pairs = append(pairs, [2]vaxis.Style{s, g.near(s)})
+			}
+		}
+		bl := func(st vaxis.Style) vaxis.Cell { return cellOf("", st) }
+		for _, pr := range pairs {
+			s, t := pr[0], pr[1]
+			ch := func(st vaxis.Style) vaxis.Cell { return cellOf(g.grapheme(true), st) }
+			for _, cells := range [][]vaxis.Cell{
+				{bl(s), ch(t)},               // styled blank, then text in another style
+				{ch(s), bl(t), ch(s)},        // blank in another style between two equal cells
+				{ch(t), bl(s)},               // styled blank at the end
+				{bl(s)},                      // alone
+				{bl(s), bl(t), ch(s), bl(t)}, // runs of blanks
+				{ch(s), bl(s), ch(t), bl(t), bl(s), ch(t)},
+				{cellOf("世", s), bl(s), ch(t), cellOf("界", t), bl(s), bl(vaxis.Style{})}, // continuation cells
+			} {
+				h.addCodec(cells, "blank-transitions")
+			}
+			gRow++
+			row := []vaxis.Cell{bl(s), ch(t), ch(s), bl(t), ch(s), bl(t), bl(s), ch(s), ch(t), bl(t), ch(t), bl(s)}
+			for ci, c := range allCaps {
+				if full || ci == gRow%4 {
+					h.addRender(c[0], c[1], append([]vaxis.Cell(nil), row...), "blank-transitions")
+				}
+			}
+		}
+	}
+	phaseG(true)
+
+	// --- H. attribute transitions (several bits at once, to and from no attributes) while the
+	// other fields KEEP a non-default value: whatever is written for the attributes must leave
+	// colours, underline style and underline colour alone
+	phaseH := func(rows int) {
+		bases := []vaxis.Style{{UnderlineStyle: vaxis.UnderlineSingle}, {UnderlineStyle: vaxis.UnderlineCurly, UnderlineColor: g.colour(4)},
+			{UnderlineColor: vaxis.IndexColor(200)}, {Foreground: g.colour(3)}, {Background: g.colour(4)},
+			{Foreground: g.colour(1), Background: g.colour(2)}, g.style()}
+		for bi, base := range bases {
+			for r := 0; r < rows; r++ {
+				cells := make([]vaxis.Cell, rowLen)
+				for i := range cells {
+					st := base
+					st.Attribute = g.attr()
+					if i%2 == 1 {
+						switch g.n(3) {
+						case 0:
+							st.Attribute = 0
+						case 1:
+							st.Attribute = vaxis.AttributeMask(2 << uint(g.n(7)))
+						}
+					}
+					cells[i] = cellOf(g.grapheme(true), st)
+				}
+				h.addCodec(cells, "attrs-other-fields-kept")
+				c := allCaps[(bi+r)%4]
+				h.addRender(c[0], c[1], append([]vaxis.Cell(nil), cells...), "attrs-other-fields-kept")
+			}
+		}
+	}
+	phaseH(6)
 
 	// --- D. values outside the named constants (no claim is made for them; the model must still agree)
 	odd := []vaxis.Style{{Foreground: 5}, {Background: vaxis.Color(1<<24 | 1<<25 | 7)}, {UnderlineStyle: 9},
@@ -711,11 +822,13 @@ func main() {
 	}
 	phaseB(2)
 	phaseC(nC / 4)
+	phaseG(false)
 	closeAll()
 
 	cfg.Write("C18", "codec: cell rows covering every ordered pair of the 128 attribute masks, every ordered pair of colour classes "+
 		"(default, 0-7, 8-15, 16-255, RGB) per colour slot and of underline styles, random cell lists (length 0-12, non-ASCII graphemes, hyperlinks), "+
-		"values outside the named constants; render: the same rows drawn by Vaxis.render under the 4 combinations of the rgb and styledUnderlines capabilities; "+
+		"blank cells (empty grapheme) styled differently from the cells before / after them, first, last, alone and in runs (directed over every attribute bit, colour class per slot, underline style; random), "+
+		"attribute transitions with the other fields kept at non-default values, values outside the named constants; render: the same rows drawn by Vaxis.render under the 4 combinations of the rgb and styledUnderlines capabilities; "+
 		"codec and render again (colour classes, random) with VAXIS_FORCE_LEGACY_SGR; sgr: the whole producer vocabulary, truncated/legacy/sub-param extended-colour forms, random param lists, lists with empty sub-lists. "+
 		"Non-trivial = at least one style transition between well-formed neighbouring cells (codec, render) / a non-empty list without empty sub-lists (sgr); distinct by the whole case",
 		[]*hx.Stream{h.codec, h.render, h.sgr},
